@@ -75,6 +75,13 @@ func (t *TaskExecutor[T]) Cancel(identifier T) (canceled bool) {
 		return false
 	}
 
+	// a task that was dropped by the size bound of the queue is not pending anymore: there is nothing to prevent
+	if queuedElement.isCanceled() {
+		t.queuedElements.Delete(identifier)
+
+		return false
+	}
+
 	queuedElement.Cancel()
 	t.queuedElements.Delete(identifier)
 
